@@ -724,8 +724,7 @@ class gear(trapezoidal):
         if not hasattr(
             self, "_lastresidual"
         ):  # if starting integration (missing last residual), so use 2nd order trapezoidal/cranknicolson
-            trapezoidal.step(self, field, dtloc)
-            self.add_res(field, dtloc)
+            trapezoidal.step(self, field, dtloc) # already applies the increment and advances time
         else:
             self.calc_jacobian(field)
             self.calcrhs(field)
